@@ -1242,8 +1242,6 @@ def compare_tokens(run: Run, cases: list[tuple[str, list]], origin: str = 'gen')
         if ci != cs:
             run.disagree(Disagreement(case, ci, cm, cs, what='tree-vs-ebnf', site='Parser.expression / led / nud',
                                       tags=a['trig']))
-        elif ci != cm and 'F04o' in a['trig']:
-            st.count('model-tie-skipped:F04o')     # the model parses a parenthesised arrow specifier as an ordinary expression (finding F04o)
         elif ci != cm:
             run.disagree(Disagreement(case, ci, cm, cs, what='model', site='operator table'))
         opaque = any(t[0] == 'a' and t[1] >= 7 for t in toks)      # operands whose text the Lean model does not render
@@ -1261,7 +1259,7 @@ def compare_tokens(run: Run, cases: list[tuple[str, list]], origin: str = 'gen')
                 run.disagree(Disagreement(dict(case, real_source=real_src), real_src, a['src'], what='source-text-model',
                                           site='XPathToken.source'))
         if tok is not None:
-            roundtrip(run, ver, src, tok, impl, extra=[f for f in a['trig'] if f == 'F04o'])
+            roundtrip(run, ver, src, tok, impl)
 
 
 # ------------------------------------------------------------------- (ii) source round trip
@@ -1456,6 +1454,70 @@ def keyword_prefix_pass(run: Run) -> None:
                 if got != want:
                     run.disagree(Disagreement({'version': v, 'source': src}, got, None, want, what='hand-written-tree',
                                               site='PrefixedNameToken.__init__'))
+
+
+def strip_comments(src: str):
+    """reference comment stripper written from the grammar (XPath 2.0 A.2.1 [77] Comment ::= "(:" (CommentContents |
+    Comment)* ":)", [82] CommentContents ::= (Char+ - (Char* ('(:' | ':)') Char*))): left-to-right, a `(:` inside a
+    comment opens a nested comment (also when its `:` could close, as in `(:)`), a `:)` closes the innermost one.
+    Every outermost comment becomes one blank; None if a comment is not closed.  (Sources without string literals.)"""
+    out, i, n = [], 0, len(src)
+    while i < n:
+        if src.startswith('(:', i):
+            level, i = 1, i + 2
+            while level:
+                if i >= n:
+                    return None
+                if src.startswith('(:', i):
+                    level, i = level + 1, i + 2
+                elif src.startswith(':)', i):
+                    level, i = level - 1, i + 2
+                else:
+                    i += 1
+            out.append(' ')
+        else:
+            out.append(src[i])
+            i += 1
+    return ''.join(out)
+
+
+def comment_bodies(maxlen: int):
+    import itertools
+    for n in range(maxlen + 1):
+        for t in itertools.product('(:)a', repeat=n):
+            yield ''.join(t)
+
+
+COMMENT_SOURCES = ['1 (: a (:) b :) c :) + 2', '1 (:(:):):) + 2', '1 (:(:)(:):):) + 2', '1 (::(::):) + 2', '1 (:):(:) + 2',
+                   '1 (:) + 2', '1 (:(:) + 2', '(:(:):):)1 + 2', '1 +(:a(:)::):)2', '1 (: (: :) (:) :) :) + (: ):( :) 2',
+                   '1 (:(:(:):):):) + 2', '1 (::):) + 2']
+
+
+def comment_pass(run: Run) -> None:
+    """comments whose text is made of the delimiter characters themselves: every text `(:` + body + closers with body
+    over the alphabet `( : ) a` (all bodies up to length 5 quick / 7 thorough), before and inside `1 + 2`; the real
+    parser must read what the reference stripper leaves (or fail where a comment is not closed)"""
+    st = run.stats
+    srcs = list(COMMENT_SOURCES)
+    for b in comment_bodies(run.scale(5, 7)):
+        for k in (1, 2, 3):
+            c = '(:' + b + ':)' * k
+            srcs.append(f'1 {c} + 2')
+            if k == 2:
+                srcs.append(f'{c}1 +{c}2')
+    for v in ('20', '31'):
+        for src in srcs:
+            ref = strip_comments(src)
+            want = 'ERR' if ref is None else canon(impl_parse(v, ref)[0])
+            got = canon(impl_parse(v, src)[0])
+            st.evaluations += 1
+            st.count('comment-delimiters:compared')
+            if want != 'ERR':
+                st.count('comment-delimiters:valid')
+            if got != want:
+                run.disagree(Disagreement({'version': v, 'source': src, 'without_comments': ref}, got, None, want,
+                                          what='whitespace-comment-invariance', site='XPath2Parser.advance (comment scan)',
+                                          tags=comment_tags(src)))
 
 
 def whitespace_pass(run: Run, cases: list[tuple[str, list]]) -> None:
@@ -1983,6 +2045,7 @@ def correspond(run: Run) -> None:
         compare_tokens(run, cases[i:i + 5000])
     wcases = [c for c in cases if len(c[1]) >= 3][:run.scale(600, 6000)]
     whitespace_pass(run, wcases)
+    comment_pass(run)
     # general corpus: source round trip of constructs outside the operator fragment
     for v in VERSIONS:
         for vv in VERSIONS:
@@ -2093,6 +2156,10 @@ EXPECTED = [
     ('20', 'n instance of xs:integer* *', 'ERR:XPST0003'), ('20', '1 cast as xs:integer+', 'ERR:XPST0003'),
     ('20', 'n instance of item()* * 2', '(* (instance (n) (item)) (2))'), ('20', '1 treat as item()+ + 2', '(+ (treat (1) (item)) (2))'),
     ('20', 'n treat as node()? + + 2', '(+ (treat (n) (node)) (+ (2)))'), ('20', 'n instance of element()* * 2', '(* (instance (n) (element)) (2))'),
+    # fixed F04o: a parenthesised arrow specifier is an ordinary expression
+    ('31', "'x' => (if (true()) then upper-case#1 else lower-case#1)()", "(=> ('x') (if (true) (# (upper-case) (1)) (# (lower-case) (1))) ())"),
+    ('31', "4 => (concat('a', 'b'))(1)", "(=> (4) (concat ('a') ('b')) (1))"),
+    ('31', "$v => (4 instance of node()?)(1)", "(=> ($ (v)) (instance (4) (node)) (1))"),
     ('31', 'n instance of array(*)+ + 1', '(+ (instance (n) (array (*))) (1))'), ('31', 'n instance of map(*)* * 2', '(* (instance (n) (map (*))) (2))'),
 ]
 
